@@ -217,6 +217,53 @@ fn same_stem_projects() -> Vec<Project> {
     out
 }
 
+/// Projects with several banks whose `filename` options name the same output file in different spellings (not at
+/// all = the default name of the build, that name written out, with `./` in front) or different files.
+fn bank_projects() -> Vec<Project> {
+    const NAMES: [Option<&str>; 6] = [None, Some("main.bin"), Some("main.prg"), Some("./main.bin"), Some("./main.prg"), Some("x.bin")];
+    let mut out = vec![];
+    for format in [None, Some("bin")] {
+        for (a, na) in NAMES.iter().enumerate() {
+            for (b, nb) in NAMES.iter().enumerate() {
+                for third in [false, true] {
+                    // (three banks: only along the diagonal and next to it)
+                    if third && a.abs_diff(b) > 1 {
+                        continue;
+                    }
+                    let bank = |name: &str, f: &Option<&str>| match f {
+                        Some(f) => format!(".define bank {{\nname = \"{}\"\nfilename = \"{}\"\n}}\n", name, f),
+                        None => format!(".define bank {{\nname = \"{}\"\n}}\n", name),
+                    };
+                    let mut main = String::new();
+                    main.push_str(&bank("ba", na));
+                    main.push_str(&bank("bb", nb));
+                    if third {
+                        main.push_str(&bank("bc", &None));
+                    }
+                    main.push_str(".define segment {\nname = \"sa\"\nbank = \"ba\"\nstart = $1000\n}\n.define segment {\nname = \"sb\"\nbank = \"bb\"\nstart = $2000\n}\n");
+                    if third {
+                        main.push_str(".define segment {\nname = \"sc\"\nbank = \"bc\"\nstart = $3000\n}\n");
+                    }
+                    main.push_str(".segment \"sa\" {\nlda tbl\nrts\n}\n.segment \"sb\" {\ntbl: .byte 5, 6, 7\n}\n");
+                    if third {
+                        main.push_str(".segment \"sc\" {\n.byte 9\n}\n");
+                    }
+                    let mut fs = vec![("main.asm".to_string(), main)];
+                    while fs.len() < 5 {
+                        fs.push((format!("unused{}.asm", fs.len()), "nop\n".to_string()));
+                    }
+                    let toml = match format {
+                        Some(f) => format!("[build]\nlisting = true\nsymbols = [\"vice\"]\noutput-format = \"{}\"\n", f),
+                        None => "[build]\nlisting = true\nsymbols = [\"vice\"]\n".to_string(),
+                    };
+                    out.push(Project { files: fs, toml });
+                }
+            }
+        }
+    }
+    out
+}
+
 fn artefact_kind(name: &str) -> String {
     if name == "stdout" || name == "stderr" || name == "exit" {
         name.to_string()
@@ -333,6 +380,7 @@ pub fn run(ctx: &Ctx, replay: Option<&Value>, rest: &[String]) -> i32 {
     let mut projs = projects(if thorough { 3 } else { 2 });
     projs.extend(segment_projects(if thorough { 4 } else { 3 }));
     projs.extend(same_stem_projects());
+    projs.extend(bank_projects());
     // valid projects additionally with listing and symbols
     let extra: Vec<Project> = projs
         .iter()
